@@ -51,8 +51,8 @@ def re : Datatype → RE
   | .J => plus printableSp
   | .H => plus hexdig
   | .B => alts [seq (chr 'f') (plus (seq (chr ',') float)),
-                seq (cls [('C', 'C'), ('I', 'I'), ('S', 'S')]) (plus (seqs [chr ',', opt (chr '+'), plus digit])),
-                seq (cls [('c', 'c'), ('i', 'i'), ('s', 's')]) (plus (seqs [chr ',', opt sign, plus digit]))]
+                seq (cls [('C', 'C'), ('I', 'I'), ('S', 'S'), ('c', 'c'), ('i', 'i'), ('s', 's')])
+                  (plus (seqs [chr ',', opt sign, plus digit]))]   -- a sign also for the unsigned subtypes ("-0"): the range decides
   | .alnGfa1 => alt star1 cigar1
   | .alnListGfa1 => seq (alt star1 cigar1) (star (seq (chr ',') (alt star1 cigar1)))
   | .oidListGfa1 => seqs [nameStart, star printable, sign]   -- the list is split at the commas by the side condition
